@@ -1,7 +1,51 @@
 (* C05 — every event maps to exactly one cause; handler kinds are mutually exclusive.
    Only statements here; model in Model/Causes.v, proofs in Proofs/Causes.v.
-   Quantification: atoms range over all 2^6 valuations (finite domain: "unbounded" only in the trivial
-   sense); handler lists [hs], the match/prematch oracles inside them, and JSON bodies are unbounded. *)
+
+   CLAUSE AUDIT (statement and quantifier of properties.jsonl C05)
+   ---------------------------------------------------------------------------------------------------------
+   clause                                                     | stated by
+   ---------------------------------------------------------------------------------------------------------
+   S1 every event -> exactly one cause                        | C05_total_unique (full); C05_every_reason_reachable
+   S2 "from the object's state alone"                         | C05_reads_only_core (of the BODY only deletionTimestamp and
+                                                              |   finalizers are read); C05_deleting_from_body (full);
+                                                              |   C05_blocked_from_body_partial + _refuted (str-valued
+                                                              |   finalizers: substring test; no finding: an API server
+                                                              |   never delivers that); stored state / essential difference
+                                                              |   are INPUTS (C04 models essence and diff); the first-sight
+                                                              |   flag is process memory, modelled: C05_first_sight_flag
+   S3 precedence gone > released > deletion > creation >      | C05_precedence (full, 7 lines with all earlier negations),
+      resume > no-op > update                                 |   C05_from_body (on real bodies), C05_initial_flag
+   S4 create/update handlers never on an object marked        | C05_no_create_update_when_deleting (atoms), C05_pass_no_create_
+      for deletion                                            |   update_when_deleting (all JSON bodies), C05_history_exclusive
+   S5 deletion handlers only while marked AND held by the     | C05_delete_only_when_blocked, C05_pass_delete_only_when_blocked,
+      framework's finalizer                                   |   C05_history_exclusive
+   S6 no change handler for gone / released / no-op           | C05_reactor_reasons_invoke_nothing, C05_gone_released_noop_
+                                                              |   invoke_nothing, C05_pass_gone_released_noop_invoke_nothing,
+                                                              |   C05_history_exclusive (is_handler_reason of every invocation)
+   S7 "handler kinds are mutually exclusive" (title)          | C05_kinds_exclusive (by decorator), C05_invoked_sound/_complete/
+                                                              |   _once; on.field / on.resume(deleted=True) carry no reason:
+                                                              |   C05_only_delete_handlers_when_deleting_refuted + _partial
+                                                              |   (documented behaviour, stated, no finding)
+   Q1 every combination of event type, deletion mark,         | all theorems over `atoms` quantify over the 2^6 valuations;
+      finalizer presence, stored state, essential             |   event types None/ADDED/MODIFIED/DELETED in detect_body/cycle;
+      difference, first-sight flag                            |   finite domain: "unbounded" only in the trivial sense
+   Q2 every object history in the closed loop                 | C05_history_exclusive: every invocation of every label list of
+      (was: monitored only, pass_hist)                        |   the closed-loop LTS (user edits, deletion, foreign finalizers,
+                                                              |   stripped stored state, restarts, processed events with ANY —
+                                                              |   also stale — object, any registry / filter outcomes / handler
+                                                              |   outcomes); what must NOT change: C05_operator_preserves,
+                                                              |   C05_stored_state_stays; first-sight over histories:
+                                                              |   C05_no_first_sight_after_handled; JSON pass = atoms pass:
+                                                              |   C05_pass_is_atoms_pass.  Tie: T:world_trace (real
+                                                              |   process_resource_event) + monitors on every pass.
+   ---------------------------------------------------------------------------------------------------------
+   not covered: event batching / stale views (C07), which handlers of the selected ones actually run in a pass
+   (oracle [ran]: C02), handler outcomes (oracles [done], [nodelays]: C11), daemons' share of the finalizer decision
+   (C09), F3-style differences between "diff empty" and "old == new" (C04), sync handlers, the API server (the
+   harness's own: merge-patch + finalizer functions on the current object, removal when deleting without finalizers).
+
+   Quantification: atoms range over all 2^6 valuations; handler lists [hs], the match/prematch oracles inside them,
+   JSON bodies, and label lists of the closed loop are unbounded. *)
 From Coq Require Import ZArith List String Bool Ascii.
 From KV Require Import Base.Json Base.Dicts Model.Causes Proofs.Causes.
 Import ListNotations.
@@ -151,7 +195,7 @@ Print Assumptions C05_from_body.
 Theorem C05_reads_only_core : forall fin ev body on de ini cons hs,
   detect_body fin ev (core_body body) on de ini = detect_body fin ev body on de ini /\
   cycle fin ev (core_body body) on de ini cons hs = cycle fin ev body on de ini cons hs.
-Proof. intros; split; [exact (core_detect_body fin ev body on de ini) | exact (core_cycle fin ev body on de ini cons hs)]. Qed.
+Proof. exact reads_only_core. Qed.
 Print Assumptions C05_reads_only_core.
 
 (* one pass of process_resource_causes over a body: whatever it invokes is in the invoked list of the cause
@@ -228,3 +272,90 @@ Theorem C05_example_update_pass :
               keys_of (co_invoked out) = [1; 3; 4; 5]%nat /\ co_cause out = Some (Update, true).
 Proof. exact ex_update_pass. Qed.
 Print Assumptions C05_example_update_pass.
+
+(* ---------- the closed loop: every object history ---------- *)
+
+(* the JSON-level pass is the atoms-level pass on the atoms read from the body (ties the history model, which is
+   over abstract objects, to the pass over real bodies) *)
+Theorem C05_pass_is_atoms_pass : forall fin ev body on de ini cons hs out,
+  cycle fin ev body on de ini cons hs = Ok out ->
+  exists dl bl, is_deletion_ongoing body = Ok dl /\ is_deletion_blocked fin body = Ok bl /\
+                out = cycle_on_atoms (Build_atoms (is_deleted_event ev) dl bl on de ini) cons hs.
+Proof. exact cycle_is_cycle_atoms. Qed.
+Print Assumptions C05_pass_is_atoms_pass.
+
+(* the first-sight atom is exactly noticed_by_listing /\ ~fully_handled_once of the memory recalled for the event;
+   a memory is created as "listed" only by an event of the initial listing *)
+Theorem C05_first_sight_flag : forall ev s m mem,
+  a_initial (atoms_of_snap ev s m) = (am_listed m && negb (am_handled m)) /\
+  (recall None ev = {| am_listed := is_listing ev; am_handled := false |}) /\ recall (Some mem) ev = mem.
+Proof. exact first_sight_flag. Qed.
+Print Assumptions C05_first_sight_flag.
+
+(* EVERY invocation of EVERY history: classified by the precedence list on the event's own object and the memory of
+   that moment, and exclusive by kind — for any interleaving of environment actions and processed events, any
+   (also stale) event object, any registry, any filter outcomes, any handler outcomes *)
+Theorem C05_history_exclusive : forall tr o m w iv,
+  run {| w_obj := o; w_mem := m; w_log := [] |} tr = Some w -> In iv (w_log w) ->
+  let s := iv_snap iv in
+  is_handler_reason (iv_reason iv) = true /\
+  guard (iv_reason iv) (atoms_of_snap (iv_ev iv) s (iv_mem iv)) = true /\
+  h_match (iv_h iv) = true /\
+  (h_reason (iv_h iv) = Some Create ->
+     iv_ev iv <> EvDeleted /\ ao_deleting s = false /\ ao_last s = None /\ iv_reason iv = Create /\ iv_initial iv = false) /\
+  (h_reason (iv_h iv) = Some Update ->
+     iv_ev iv <> EvDeleted /\ ao_deleting s = false /\ iv_reason iv = Update /\
+     exists l, ao_last s = Some l /\ l <> ao_ess s) /\
+  (h_reason (iv_h iv) = Some Delete ->
+     iv_ev iv <> EvDeleted /\ ao_deleting s = true /\ ao_own s = true /\ iv_reason iv = Delete) /\
+  (truthy (h_initial (iv_h iv)) = true ->
+     first_sight (iv_mem iv) = true /\ iv_initial iv = true /\ iv_reason iv <> Create /\
+     (ao_deleting s = true -> truthy (h_deleted (iv_h iv)) = true)) /\
+  (ao_deleting s = true -> iv_reason iv = Delete /\ ao_own s = true /\
+                           (h_reason (iv_h iv) = Some Delete \/ h_reason (iv_h iv) = None)).
+Proof. exact history_exclusive. Qed.
+Print Assumptions C05_history_exclusive.
+
+(* what a processed event must NOT change on the server: the essence, the deletion mark, foreign finalizers; the stored
+   last-handled state is kept or overwritten with the essence of the event's object, never cleared; no resurrection *)
+Theorem C05_operator_preserves : forall w ev snap hs c d n ran w',
+  step w (Proc ev snap hs c d n ran) = Some w' ->
+  match w_obj w with
+  | None => w_obj w' = None
+  | Some o =>
+      w_obj w' = None \/
+      exists o', w_obj w' = Some o' /\
+        ao_ess o' = ao_ess o /\ ao_deleting o' = ao_deleting o /\ ao_foreign o' = ao_foreign o /\
+        (ao_last o' = ao_last o \/ ao_last o' = Some (ao_ess snap)) /\
+        (ao_last o <> None -> ao_last o' <> None)
+  end.
+Proof. exact proc_preserves. Qed.
+Print Assumptions C05_operator_preserves.
+
+(* hence "creation (never handled before)" cannot recur: once stored, the last-handled state stays for the object's
+   whole life through every history in which nobody strips it *)
+Theorem C05_stored_state_stays : forall tr w w' o, forallb (fun l => negb (is_drop l)) tr = true ->
+  run w tr = Some w' -> w_obj w = Some o -> ao_last o <> None ->
+  w_obj w' = None \/ exists o', w_obj w' = Some o' /\ ao_last o' <> None.
+Proof. exact stored_stays. Qed.
+Print Assumptions C05_stored_state_stays.
+
+(* "resume (first sight after start)": after a handling cycle completed in this process nothing is invoked with the
+   first-sight flag until the process restarts or the object's DELETED event is processed *)
+Theorem C05_no_first_sight_after_handled : forall tr w w' m, forallb keeps_memory tr = true ->
+  run w tr = Some w' -> w_mem w = Some m -> am_handled m = true ->
+  forall iv, In iv (skipn (List.length (w_log w)) (w_log w')) -> first_sight (iv_mem iv) = false.
+Proof. exact no_first_sight_after_handled. Qed.
+Print Assumptions C05_no_first_sight_after_handled.
+
+(* non-vacuity: one object's whole life (listing, finalizer pass, creation, echo, edit, restart, resume, deletion,
+   release) is a history of the model, with nine invocations *)
+Theorem C05_example_life :
+  match ex_drive ex_world0 ex_script with
+  | Some w => w_obj w = None /\
+              map (fun iv => (h_key (iv_h iv), iv_reason iv)) (w_log w) =
+              [(0, Create); (4, Create); (1, Update); (4, Update); (3, Resume); (4, Resume); (5, Resume); (2, Delete); (4, Delete)]%nat
+  | None => False
+  end.
+Proof. exact ex_life. Qed.
+Print Assumptions C05_example_life.
